@@ -52,6 +52,8 @@ def _xv_value(kind, enc, version=0):
         return (num, num + 0.5)
     if kind == "tuple3":
         return (num, "<" + enc + ">", num + 0.25)
+    if kind == "tuple3n":
+        return (num, num + 0.5, num + 0.25)
     if kind == "numbool":
         return (num, bool(int(num // 4) % 2))
     if kind == "array":
